@@ -13,7 +13,9 @@ from ..meshlib import PyMesh, all_elements, canon
 
 from ..meshops_tie import PROP_MOD_C20 as MESHOPS_PROP_MOD, TRUSTED as MESHOPS_TRUSTED, generated_twins, translate_meshops  # noqa: E402
 
-PROP_MODS = ['Stbem.Props.C20', MESHOPS_PROP_MOD]
+from ..estimgen_tie import PROP_MOD as ESTIMGEN_PROP_MOD, TRUSTED as ESTIMGEN_TRUSTED, prelude_requests, translate_estimgen  # noqa: E402
+
+PROP_MODS = ['Stbem.Props.C20', MESHOPS_PROP_MOD, ESTIMGEN_PROP_MOD]
 RULE = ('correspondence: the REAL HierarchicalErrorEstimator.estimate / HH2ErrorEstimator.estimate / '
         'DummyElement.uniform_refinement / Prolongate run in-process on exact data and are compared textually with the '
         'Lean model: (1) children rectangles of uniform_refinement on leaves of random real meshes (Fraction '
@@ -24,7 +26,11 @@ RULE = ('correspondence: the REAL HierarchicalErrorEstimator.estimate / HH2Error
         'all four data configurations (g, M0 present or not), random and Galerkin densities, extension-solves-fine-'
         'problem cases and failing-assertion cases; (3) Prolongate on random real mesh histories (coarse = earlier '
         'leaf set / random antichain cut / same list / list without ancestor) vs `prolongate` on the replayed model '
-        'mesh.  Every exact run is also compared with the definition computed geometrically (quadrants LL,LR,UL,UR, '
+        'mesh.  Every estimator request is answered a second time by the functions REGENERATED from the two estimator sources '
+        '(translate/estimgen.py -> Gen/EstimGen.lean, `gest quarters/kids/hier/hh2`: elements built from the rectangles by the '
+        'vertex convention, leaves = stubs handing out the recorded arrays) and must give the same answer; the Python / NumPy '
+        'prelude of the generated file is executed against NumPy itself (`gest np`: @, -, +=, -=, repeat, max, min, abs, '
+        'np.array of pairs, position map; shape errors and length-1 broadcasting included).  Every exact run is also compared with the definition computed geometrically (quadrants LL,LR,UL,UR, '
         'fine elements in a different order) — a difference there is a VIOLATION with the input.  '
         'search (floats, no model): real SingleLayerOperator on UnitSquare/Circle/LShape meshes; indicators and '
         'h-h/2 recomputed with single-pair bilform() on a replayed copy of the mesh that was REALLY bisected '
@@ -44,6 +50,7 @@ TRUSTED = [
     'not modelled: binary64 rounding in the production path (covered only by the 1e-9 float search); np.linalg.solve '
     '(LAPACK) is replaced by an exact solver in the correspondence run; multiprocessing',
     MESHOPS_TRUSTED,
+    ESTIMGEN_TRUSTED,
 ]
 ASSUMPTIONS = [
     'the leaves bilform_matrix(test, trial)[i, j] = <V 1_trial_j, 1_test_i>, linform_vector, g(elems)_j = <g, 1_j> are '
@@ -59,13 +66,33 @@ sys.path.insert(0, os.path.join(VERIF, 'translate'))
 
 
 def translate(res):
-    import consts as T
-    c = T.generate(os.environ.get('STBEM_REPO', '/repo'), os.path.join(LEAN, 'Stbem', 'Gen'), write_if_changed)
-    translate.consts = c
-    res.notes['child_boxes'] = [[q2s(v) for v in b] for b in c['boxes']]
-    res.notes['patterns'] = c['patterns']
+    """three translators; each one runs even if another one cannot translate (every failure is a broken obligation)"""
+    import traceback
+    translate.consts = translate.estimgen = None
+    failures = []
+
+    def consts():
+        import consts as T
+        c = T.generate(os.environ.get('STBEM_REPO', '/repo'), os.path.join(LEAN, 'Stbem', 'Gen'), write_if_changed)
+        translate.consts = c
+        res.notes['child_boxes'] = [[q2s(v) for v in b] for b in c['boxes']]
+        res.notes['patterns'] = c['patterns']
+
+    def estimgen():
+        # both estimator files regenerated statement by statement (Gen/EstimGen.lean; tie: Props/EstimTie.lean)
+        translate.estimgen = translate_estimgen(res)
     # Prolongate (and the refinement drivers the mesh histories run through) regenerated from src/mesh.py
-    translate_meshops(res)
+    for name, fn in (('translate/consts.py', consts), ('translate/meshops.py', lambda: translate_meshops(res)),
+                     ('translate/estimgen.py', estimgen)):
+        try:
+            fn()
+        except Exception as exc:
+            failures.append((name, exc, traceback.format_exc()))
+    for name, exc, tb in failures[1:]:
+        res.broken_obligation('translator %s' % name, '%s\n%s' % (exc, tb))
+    if failures:
+        name, exc, tb = failures[0]
+        raise type(exc)('%s: %s' % (name, exc)) from exc
 
 
 # ------------------------------------------------------------------------------------------------
@@ -214,6 +241,13 @@ def correspond(res, tier):
         want = '|'.join([';'.join(enc(b) for b in c['boxes']), ';'.join(','.join(str(v) for v in p) for p in c['patterns']),
                          ';'.join(enc(r) for r in c['combine']), str(c['repeat'])])
         add('est consts', want, dict(kind='consts'))
+    eg = getattr(translate, 'estimgen', None)
+    if eg is not None:
+        # the built driver carries the tables / float constants of the estimators as just regenerated
+        tabs = dict(eg.get('_tables', []))
+        want = ';'.join(','.join(str(v) for v in p) for p in tabs.get('HierarchicalErrorEstimator.estimate_table1', [])) + '|1/2'
+        add('gest consts', want, dict(kind='consts [REGENERATED from the estimator sources: gest]'))
+    GEN = ' [REGENERATED from the estimator sources: gest]'
 
     quick = tier == 'quick'
     # --- 1. + 2. estimators on exact data
@@ -278,6 +312,15 @@ def correspond(res, tier):
         kids = HM.DummyElement.uniform_refinement(elems)
         flat = [rect_of(ch) for chs in kids for ch in chs]
         add('est quarters ' + enc_rects(coarse), enc_rects(flat), dict(info, kind='quarters'))
+        add('gest quarters ' + enc_rects(coarse), enc_rects(flat), dict(info, kind='quarters' + GEN))
+        # vertices of the children (coordinates, which of them are new = idx -1), identities: all distinct objects; the
+        # generated functions number them by allocation: len(elems) + 4 i + k
+        all_kids = [ch for chs in kids for ch in chs]
+        if len({id(ch) for ch in all_kids}) != len(all_kids) or any(id(ch) in {id(e) for e in elems} for ch in all_kids):
+            res.violation('C20:child-identity', dict(info, note='uniform_refinement returns the same object twice'))
+        add('gest kids ' + enc_rects(coarse),
+            ';'.join('%d:%s' % (n + j, '|'.join('%s,%s,%d' % (q2s(v.t), q2s(v.x), -1 if v.idx == -1 else 0) for v in ch.vertices))
+                     for j, ch in enumerate(all_kids)) + ' %d' % (n + len(all_kids)), dict(info, kind='children' + GEN))
         for e, chs in zip(elems, kids):
             if [rect_of(ch) for ch in chs] != quadrants(rect_of(e)):
                 res.violation('C20:child-order', dict(info, element=[q2s(v) for v in rect_of(e)],
@@ -314,6 +357,9 @@ def correspond(res, tier):
             add('est hier %s %s %s %s %s' % (enc_mat(mat), enc(Phi), enc(gv) if gv is not None else 'none',
                                              enc(mv) if mv is not None else 'none', '|'.join(enc_mat(S) for S in Ss)),
                 want, info)
+            add('gest hier %s %s %s %s %s %s' % (enc_rects(coarse), enc_mat(mat), enc(Phi), enc(gv) if gv is not None else 'none',
+                                                enc(mv) if mv is not None else 'none', '|'.join(enc_mat(S) for S in Ss)),
+                want, dict(info, kind='hier' + GEN))
             if got == 'err':
                 res.bump('hier_assertion_cases')
             # definition
@@ -354,6 +400,8 @@ def correspond(res, tier):
                 continue
             add('est hh2 %s %s %s %s' % (enc_mat(A), enc(Phi), enc(gv) if gv is not None else 'none',
                                          enc(mv) if mv is not None else 'none'), want, info)
+            add('gest hh2 %s %s %s %s %s' % (enc_rects(coarse), enc_mat(A), enc(Phi), enc(gv) if gv is not None else 'none',
+                                            enc(mv) if mv is not None else 'none'), want, dict(info, kind='hh2' + GEN))
             if want == 'err':
                 ref = 'singular'
                 if all(len(parent_index(coarse, q)) == 1 for r in coarse for q in quadrants(r)):
@@ -382,6 +430,10 @@ def correspond(res, tier):
                 res.sample(dict(kind='hh2', n=n, g=use_g, M0=use_m0, density=dens, squared=want[:80]))
 
     res.notes['t_tie_estimators_s'] = round(_time.time() - t_start, 1)
+    # --- 2b. the Python / NumPy prelude of the generated estimator file against Python / NumPy itself
+    for line, want, what in prelude_requests(seed_rng(res.seed, 'C20np'), 40 if quick else 300):
+        add(line, want, dict(kind='prelude of Gen/EstimGen.lean vs NumPy: ' + what))
+        res.bump('tie_numpy_prelude')
     # --- 3. Prolongate on real histories
     n_hist = 16 if quick else 150
     for h in range(n_hist):
